@@ -21,6 +21,8 @@ structure Inv (c : Cfg) (s : State) : Prop where
   held : s.pc = .held → s.cur = []
   closing : s.pc = .closing → s.cur = [] ∧ s.fin = true
   done : s.pc = .done → s.cur = [] ∧ s.fin = true
+  /-- zero processing time: items the batcher holds have been held for at most `wait` -/
+  told : c.strict = true → s.cur ≠ [] → s.clock ≤ s.t0 + c.wait
 
 theorem inv_init (c : Cfg) : Inv c init := by
   constructor <;> simp [init]
@@ -34,7 +36,7 @@ macro "pc_vac" : tactic =>
 
 theorem inv_step (c : Cfg) (hbs : 1 ≤ c.bs) (s : State) (a : Act) (s' : State)
     (hi : Inv c s) (hs : Step c s a s') : Inv c s' := by
-  obtain ⟨harr, htak, hnoEnd, hsizes, hstamps, hsorted, hidle, hcoll, hflush, hheld, hclosing, hdone⟩ := hi
+  obtain ⟨harr, htak, hnoEnd, hsizes, hstamps, hsorted, hidle, hcoll, hflush, hheld, hclosing, hdone, htold⟩ := hi
   cases hs with
   | arrive x =>
     constructor <;> try assumption
@@ -96,6 +98,16 @@ theorem inv_step (c : Cfg) (hbs : 1 ≤ c.bs) (s : State) (a : Act) (s' : State)
       · simp [hpc] at hg
       · simp [hpc] at hg
       · simp [hpc] at hg
+    case told =>
+      intro hstrict hcur
+      have hcur : s.cur ≠ [] := hcur
+      show s.clock + d ≤ s.t0 + c.wait
+      rcases hg with hg | hg | hg | hg | hg
+      · simp [hstrict] at hg
+      · exact absurd (hidle hg.1).1 hcur
+      · exact hg.2.2
+      · exact absurd (hheld hg) hcur
+      · exact absurd (hdone hg).1 hcur
   | takeIdleEnd hq hpc he =>
     have hz := isEnd_eq he
     obtain ⟨hc, hf⟩ := hidle hpc
@@ -107,6 +119,7 @@ theorem inv_step (c : Cfg) (hbs : 1 ≤ c.bs) (s : State) (a : Act) (s' : State)
   | takeIdleItem hq hpc he =>
     obtain ⟨hc, hf⟩ := hidle hpc
     constructor <;> try assumption
+    case told => intro _ _; show s.clock ≤ s.clock + c.wait; omega
     case arr => simp [harr, hq]
     case tak => simp [htak, hf, hc]
     case noEnd =>
@@ -142,6 +155,7 @@ theorem inv_step (c : Cfg) (hbs : 1 ≤ c.bs) (s : State) (a : Act) (s' : State)
   | takeCollItem hq hpc he =>
     obtain ⟨hc1, hc2, hf, hc3, hc4⟩ := hcoll hpc
     constructor <;> try assumption
+    case told => intro hstrict _; exact hc4 hstrict
     case arr => simp [harr, hq]
     case tak => simp [htak, hf]
     case noEnd =>
@@ -185,6 +199,7 @@ theorem inv_step (c : Cfg) (hbs : 1 ≤ c.bs) (s : State) (a : Act) (s' : State)
   | emit hpc =>
     obtain ⟨h1, h2, h3⟩ := hflush hpc
     constructor <;> try assumption
+    case told => intro _ hcur; exact absurd rfl hcur
     pc_vac
     case tak => simp [htak]
     case noEnd => simpa using hnoEnd
